@@ -170,6 +170,27 @@ func (s *stackDesc) volume() int {
 	return n + s.Inner.volume() + s.A.volume() + s.B.volume()
 }
 
+// manyPages: from this number of page requests for one complete listing on, a case is run
+// with one listing call only (listPhase)
+const manyPages = 16000
+
+// pageRequests: the largest number of requests a client of the stack makes for one complete
+// listing of what lies under it
+func (s *stackDesc) pageRequests() int {
+	if s == nil {
+		return 0
+	}
+	n := max(s.Inner.pageRequests(), s.A.pageRequests(), s.B.pageRequests())
+	if s.Kind == "hop" {
+		p := s.PageSize
+		if p <= 0 {
+			p = 1000
+		}
+		n = max(n, s.Inner.volume()/p)
+	}
+	return n
+}
+
 func (s *stackDesc) hops() int {
 	switch s.Kind {
 	case "mem", "script", "funcs":
@@ -248,23 +269,45 @@ func (b *built) close() {
 }
 
 func scripted(items []string, code string) ociregistry.Interface {
+	if len(items) >= 900 && sort.StringsAreSorted(items) {
+		// a long ascending script: the names after the start point are found by bisection
+		// instead of by passing over the whole script (a listing paged one name at a time
+		// asks for them once per name)
+		return scriptedFrom(func(start string, all bool) []string {
+			if all {
+				return items
+			}
+			return items[sort.Search(len(items), func(i int) bool { return start < items[i] }):]
+		}, func() []string { return items }, code)
+	}
 	return scriptedVar(func() []string { return items }, code)
 }
 
 // scriptedVar: the items are asked for at every listing call (they can be changed between two
 // listings, hist.go)
 func scriptedVar(get func() []string, code string) ociregistry.Interface {
+	return scriptedFrom(func(start string, all bool) []string {
+		var out []string
+		for _, it := range get() {
+			if all || start < it {
+				out = append(out, it)
+			}
+		}
+		return out
+	}, get, code)
+}
+
+// scriptedFrom: from(start, all) = the items of the script after the start point, in the
+// script's order (all: every item)
+func scriptedFrom(from func(start string, all bool) []string, get func() []string, code string) ociregistry.Interface {
 	var failure error
 	if code != "" {
 		failure = ociregistry.NewError("scripted failure", code, nil)
 	}
 	strs := func(start string, all bool) ociregistry.Seq[string] {
-		items := get()
+		items := from(start, all)
 		return func(yield func(string, error) bool) {
 			for _, it := range items {
-				if !all && !(start < it) {
-					continue
-				}
 				if !yield(it, nil) {
 					return
 				}
@@ -449,7 +492,7 @@ func errTerm(err error) string {
 
 // No listing makes more calls than the leaves of its stack hold names (plus an error): an
 // iterator that makes more than maxCalls calls (slack + that volume; set per case by runCase),
-// or that does not return within watchdog, is a runaway (for instance a pager that asks for the
+// or that neither returns nor makes a call within watchdog, is a runaway (for instance a pager that asks for the
 // same page for ever).  It is recorded as a junk entry, the consumer declines from then on, and
 // the case is judged like any other.
 const callSlack = 120
@@ -513,14 +556,30 @@ func drainAt[T any](mk func() ociregistry.Seq[T], k int, maxCalls int, show func
 			mu.Unlock()
 		}
 	}()
-	select {
-	case <-done:
-	case <-time.After(watchdog):
-		mu.Lock()
-		abandoned = true
-		stuck.Add(1)
-		log = append(log, entry{Bad: "the iterator did not return within " + watchdog.String()})
-		mu.Unlock()
+	// the watchdog measures the time without a yield call (a listing of tens of thousands of
+	// pages takes longer than watchdog as a whole, and makes calls all the time)
+	// (and a hop whose page holds a whole long listing makes no call while its server
+	// drains what is under it: half a millisecond more for every name)
+	patience := watchdog + time.Duration(maxCalls)*time.Millisecond/2
+	seen := 0
+wait:
+	for {
+		select {
+		case <-done:
+			break wait
+		case <-time.After(patience):
+			mu.Lock()
+			if len(log) != seen {
+				seen = len(log)
+				mu.Unlock()
+				continue
+			}
+			abandoned = true
+			stuck.Add(1)
+			log = append(log, entry{Bad: "the iterator did not return (nor make a call) within " + patience.String()})
+			mu.Unlock()
+			break wait
+		}
 	}
 	mu.Lock()
 	defer mu.Unlock()
@@ -912,6 +971,28 @@ func listPhase(reg ociregistry.Interface, st *stackDesc, query queryDesc, start 
 	var obs []observed
 	maxCalls := callSlack + st.volume()
 	var runs []string
+	heavy := st.pageRequests() >= manyPages
+	if heavy {
+		// a listing of tens of thousands of page requests: one listing call, the sequence value
+		// iterated by the declining consumers first and by the accepting ones after them (the
+		// runs are judged like any others; iterating again is part of them)
+		var order []int
+		for _, k := range ks {
+			if k > 0 {
+				order = append(order, k)
+			}
+		}
+		for _, k := range ks {
+			if k <= 0 {
+				order = append(order, k)
+			}
+		}
+		for i, log := range runQueryMany(reg, query, start, order, maxCalls) {
+			obs = append(obs, observe(order[i], log))
+			runs = append(runs, fmt.Sprintf("(%d, %s)", order[i], obs[len(obs)-1].coq))
+		}
+		ks = nil
+	}
 	for _, k := range ks {
 		log := runQuery(reg, query, start, k, maxCalls)
 		obs = append(obs, observe(k, log))
@@ -924,7 +1005,7 @@ func listPhase(reg ociregistry.Interface, st *stackDesc, query queryDesc, start 
 	// smallest and the largest positive k of the case; or after a complete pass) a complete pass
 	// must again be the whole listing.  The runs are judged like any other run with that consumer.
 	bad := len(obs) > 0 && obs[len(obs)-1].lastBad
-	if !bad {
+	if !bad && !heavy {
 		firsts := []int{0}
 		lo, hi := 0, 0
 		for _, k := range ks {
@@ -1966,21 +2047,34 @@ type ran struct {
 func runLong(cases []longCase, workers int) map[*stackDesc]*ran {
 	out := map[*stackDesc]*ran{}
 	next := make(chan int, len(cases))
+	heavy := make(chan int, len(cases))
 	for i, c := range cases {
 		out[c.in.Stack] = &ran{done: make(chan struct{})}
-		next <- i
+		// the cases of tens of thousands of page requests take the longest: they come last in the
+		// case files and are run by workers of their own from the start, so that the others are
+		// ready when their turn comes
+		if c.in.Stack.pageRequests() >= manyPages {
+			heavy <- i
+		} else {
+			next <- i
+		}
 	}
 	close(next)
-	for w := 0; w < workers; w++ {
-		go func() {
-			for i := range next {
-				r := out[cases[i].in.Stack]
-				if int(stuck.Load()) < maxStuck {
-					r.coq, r.obs, _ = runCase(cases[i].in)
-				}
-				close(r.done)
+	close(heavy)
+	work := func(q chan int) {
+		for i := range q {
+			r := out[cases[i].in.Stack]
+			if int(stuck.Load()) < maxStuck {
+				r.coq, r.obs, _ = runCase(cases[i].in)
 			}
-		}()
+			close(r.done)
+		}
+	}
+	for w := 0; w < workers; w++ {
+		go work(next)
+	}
+	for w := 0; w < 3; w++ {
+		go work(heavy)
 	}
 	return out
 }
